@@ -100,7 +100,7 @@ def sbg_path(case):
     return "bucket" if ((mx < 1e5 or mx < 2 * n) and mx < 10 * n) else "numba->np"
 
 
-def corr_sbg(ctx):
+def corr_sbg(ctx, pool):
     cases = gen_sbg_cases(ctx)
     outs = []
     for c in cases:
@@ -113,9 +113,9 @@ def corr_sbg(ctx):
         ctx.count("sbg_" + sbg_path(c))
         ctx.case({"sbg": c["keys"], "cols": c["cols"], "numba": c["use_numba"], "dt": c["kdtype"]},
                  len(set(c["keys"])) < len(c["keys"]) and c["keys"] != sorted(c["keys"]))
-    n_tot = n_mis = 0
     size = 400
     idx = [i for i, o in enumerate(outs) if o is not None]
+    jobs = []
     for s in range(0, len(idx), size):
         chunk = idx[s:s + size]
         body = []
@@ -125,22 +125,28 @@ def corr_sbg(ctx):
                         % (cbool(c["use_numba"]), cm.zl(c["keys"]), cm.zll(c["cols"]), cm.zl(ok), cm.zll(oc)))
         txt = HDR + "Definition cs : list sbg_case := [\n%s\n].\nEval vm_compute in (summary sbg_case_ok cs).\n" \
             % ";\n".join(body)
-        trip, out = ctx.coq_counts(txt, "sbg_%d" % (s // size))
-        if not trip:
-            ctx.broken("correspondence", "sbg model vs _sum_by_group (coqc failed)", out[-800:])
-            return
-        n, m, first = trip[0]
-        n_tot += n
-        n_mis += m
-        if m:
-            c = cases[chunk[first]]
-            exp = spec_sbg(c)
-            ctx.violation({"fn": "_sum_by_group", "path": sbg_path(c)},
-                          "_sum_by_group(use_numba=%s) on keys %r gives %r, per-key sums are %r"
-                          % (c["use_numba"], c["keys"], outs[chunk[first]], exp),
-                          {"case": c, "observed": outs[chunk[first]], "expected": exp})
-    ctx.corr("C06.Model.sbg == sbg_spec == internals_toolbox._sum_by_group (Z-exact, numba on/off, "
-             "bucket / np dispatch on both sides of 1e5)", n_tot, n_mis)
+        jobs.append((chunk, pool.submit(ctx.coq_counts_gated, txt, "sbg_%d" % (s // size))))
+
+    def finish():
+        n_tot = n_mis = 0
+        for chunk, fut in jobs:
+            trip, out = fut.result()
+            if not trip:
+                ctx.broken("correspondence", "sbg model vs _sum_by_group (coqc failed)", out[-800:])
+                return
+            n, m, first = trip[0]
+            n_tot += n
+            n_mis += m
+            if m:
+                c = cases[chunk[first]]
+                exp = spec_sbg(c)
+                ctx.violation({"fn": "_sum_by_group", "path": sbg_path(c)},
+                              "_sum_by_group(use_numba=%s) on keys %r gives %r, per-key sums are %r"
+                              % (c["use_numba"], c["keys"], outs[chunk[first]], exp),
+                              {"case": c, "observed": outs[chunk[first]], "expected": exp})
+        ctx.corr("C06.Model.sbg == sbg_spec == internals_toolbox._sum_by_group (Z-exact, numba on/off, "
+                 "bucket / np dispatch on both sides of 1e5)", n_tot, n_mis)
+    return finish
 
 
 def spec_sbg(c):
@@ -196,7 +202,7 @@ def gen_nets(ctx, n, profiles=("water", "gas", "heat"), **kw):
     return out
 
 
-def corr_lookups(ctx):
+def corr_lookups(ctx, pool):
     specs = gen_nets(ctx, 36 if ctx.quick else 600)
     body, kept = [], []
     for sp in specs:
@@ -213,33 +219,39 @@ def corr_lookups(ctx):
                               {"kind": "pi_family", "net": sp, "options": {"use_numba": False}})
         except Exception as e:  # noqa: BLE001
             ctx.broken("correspondence", "create_lookups harness", repr(e))
-            return
+            return lambda: None
         d = gen.describe(sp)
         ctx.count("lookups_" + ("contig" if d["contiguous"] else "noncontig"))
         ctx.case({"lookups": sp}, (not d["contiguous"]) and d["multi_section"] > 0)
-    n_tot = n_mis = 0
     size = 60
+    jobs = []
     for s in range(0, len(body), size):
         txt = HDR + "Definition cs : list lk_case := [\n%s\n].\nEval vm_compute in (summary lk_case_ok cs).\n" \
             % ";\n".join(body[s:s + size])
-        trip, out = ctx.coq_counts(txt, "lk_%d" % (s // size))
-        if not trip:
-            ctx.broken("correspondence", "create_lookups model (coqc failed)", out[-800:])
-            return
-        n, m, first = trip[0]
-        n_tot += n
-        n_mis += m
-        if m:
-            sp = kept[s + first]
-            what = mon.lookup_property_check(gen.build(sp))
-            if what:
-                ctx.violation({"fn": "create_lookups", "what": what[0]}, what[1], {"net": sp})
-            else:
-                ctx.broken("correspondence", "create_lookups model vs net._lookups",
-                           "model and implementation differ on a net whose lookups still satisfy lookup_correct: %s"
-                           % json.dumps(sp)[:600])
-    ctx.corr("C06.Model.create_lookups == pipeflow_setup.create_lookups (from_to, index, internal "
-             "structures, lengths) on generated nets", n_tot, n_mis)
+        jobs.append((s, pool.submit(ctx.coq_counts_gated, txt, "lk_%d" % (s // size))))
+
+    def finish():
+        n_tot = n_mis = 0
+        for s, fut in jobs:
+            trip, out = fut.result()
+            if not trip:
+                ctx.broken("correspondence", "create_lookups model (coqc failed)", out[-800:])
+                return
+            n, m, first = trip[0]
+            n_tot += n
+            n_mis += m
+            if m:
+                sp = kept[s + first]
+                what = mon.lookup_property_check(gen.build(sp))
+                if what:
+                    ctx.violation({"fn": "create_lookups", "what": what[0]}, what[1], {"net": sp})
+                else:
+                    ctx.broken("correspondence", "create_lookups model vs net._lookups",
+                               "model and implementation differ on a net whose lookups still satisfy lookup_correct: %s"
+                               % json.dumps(sp)[:600])
+        ctx.corr("C06.Model.create_lookups == pipeflow_setup.create_lookups (from_to, index, internal "
+                 "structures, lengths) on generated nets", n_tot, n_mis)
+    return finish
 
 
 # ------------------------------------------------------------------------------------------ run
@@ -251,21 +263,31 @@ def run(ctx):
                          "multi-section pipe. Monitors: non-trivial = relabelling is not the identity / permutation "
                          "moves a row")
     import time
+    from concurrent.futures import ThreadPoolExecutor
     tm = [time.time()]
-    proved = ctx.prove("C06")
+    # the theorems are built (always completely) in a worker thread while the cases are generated; the generated
+    # cases files are evaluated by coqc - after the build has finished - in worker threads while the monitors run;
+    # all random choices are drawn in this (main) thread, in a fixed order
+    with ThreadPoolExecutor(max_workers=5) as pool:
+        build = pool.submit(ctx.prove, "C06")
+
+        def gated(txt, name):
+            build.result()
+            return ctx.coq_counts(txt, name)
+        ctx.coq_counts_gated = gated
+        tm.append(time.time())
+        fins = [corr_sbg(ctx, pool), corr_lookups(ctx, pool), cx.corr_extract(ctx, pool), cx.corr_pit_relabel(ctx, pool)]
+        tm.append(time.time())
+        monitor_sbg_float(ctx)
+        mon.monitor_pi_valve_family(ctx)
+        mon.monitor_t_outlet_witness(ctx)
+        mon.monitors(ctx)
+        tm.append(time.time())
+        proved = build.result()
+        for f in fins:
+            f()
     tm.append(time.time())
-    corr_sbg(ctx)
-    corr_lookups(ctx)
-    tm.append(time.time())
-    cx.corr_extract(ctx)
-    cx.corr_pit_relabel(ctx)
-    tm.append(time.time())
-    monitor_sbg_float(ctx)
-    mon.monitor_pi_valve_family(ctx)
-    mon.monitor_t_outlet_witness(ctx)
-    mon.monitors(ctx)
-    tm.append(time.time())
-    ctx.extra["timing_s"] = dict(zip(["prove", "corr_sbg_lookups", "corr_extract_pit", "monitors"],
+    ctx.extra["timing_s"] = dict(zip(["start", "generate_cases", "monitors", "wait_for_build_and_coq"],
                                      [round(b - a, 1) for a, b in zip(tm, tm[1:])]))
     if (not proved or ctx.brokens) and not ctx.violations:
         mon.monitors(ctx, widen=True)
